@@ -4,6 +4,9 @@ S-Coda messages in the library's canonical same-tick order (DESIGN L6).
 spec = {"notes": [[ch, pitch, onset, dur, vel], ...],
         "tsigs": [[tick, num, den], ...], "keys": [[tick, "C"], ...],
         "progs": [[tick, ch, program], ...], "ccs": [[tick, ch, control, value], ...],
+        "lone": [[ch, pitch, tick, vel], ...] note-ons that are never closed, "stray": [[ch, pitch, tick], ...] note-offs
+        that close nothing (both optional; integer-tick input that is not well-formed, only used where a property
+        quantifies over all integer-tick sequences),
         "tail": extra ticks of silence after the last event, "wsplit": 0 | k (split waits > k)}
 """
 from __future__ import annotations
@@ -27,6 +30,10 @@ def render_abs(spec) -> list:
     for ch, p, on, dur, vel in spec.get("notes", []):
         msgs.append(Message(message_type=MT.NOTE_ON, channel=ch, note=p, velocity=vel, time=on))
         msgs.append(Message(message_type=MT.NOTE_OFF, channel=ch, note=p, time=on + dur))
+    for ch, p, on, vel in spec.get("lone", []):
+        msgs.append(Message(message_type=MT.NOTE_ON, channel=ch, note=p, velocity=vel, time=on))
+    for ch, p, on in spec.get("stray", []):
+        msgs.append(Message(message_type=MT.NOTE_OFF, channel=ch, note=p, time=on))
     for tick, n, d in spec.get("tsigs", []):
         msgs.append(Message(message_type=MT.TIME_SIGNATURE, numerator=n, denominator=d, time=tick))
     for tick, k in spec.get("keys", []):
@@ -107,6 +114,9 @@ def spec_duration(spec) -> int:
     for lst in ("tsigs", "keys", "progs", "ccs"):
         for item in spec.get(lst, []):
             end = max(end, item[0])
+    for lst in ("lone", "stray"):
+        for item in spec.get(lst, []):
+            end = max(end, item[2])
     return end + spec.get("tail", 0)
 
 
@@ -218,7 +228,7 @@ def simplify_spec(spec):
         s = dict(spec)
         s["notes"] = notes[:i] + notes[i + 1:]
         yield s
-    for fld in ("tsigs", "keys", "progs", "ccs"):
+    for fld in ("tsigs", "keys", "progs", "ccs", "lone", "stray"):
         items = spec.get(fld, [])
         for i in range(len(items)):
             s = dict(spec)
